@@ -34,10 +34,18 @@ import (
 //                  the 1 s validation period) | respfrom@att (answer to p1's challenge arrives from att) |
 //                  respcookie@p1 (real keys, cookie differs in one bit) | tick (600 ms of fake time) |
 //                  write (V's application writes).
-//   sequences      all sequences up to the depth of the tier (quick: 2 everywhere, 3 on the core
-//                  configurations; thorough: 3 everywhere, 4 on the core configurations) in which every
-//                  resp* event has an earlier unanswered fresh@ to the same address (a resp* event without
-//                  a pending challenge is a no-op; such executions are skipped).
+//   sequences      all sequences up to the depth of the tier (quick: 2 everywhere, 3 on 16 core configurations
+//                  and the amp ones; thorough: 3 everywhere, 4 on 25 core configurations and the amp ones) in
+//                  which every resp* event has an earlier unanswered fresh@ to the same address (resp@peer:
+//                  after a possible migration). A resp* event that finds no pending challenge at run time is a
+//                  no-op: that execution is skipped (its prefix is a case of its own).
+//
+// How RRC is negotiated in this tree: there is no option for it. Whenever a ConnectionIDGenerator is configured
+// the client's ClientHello carries connection_id AND return_routability_check (flight1 of both versions); the
+// server echoes return_routability_check iff it sends connection_id and the client offered it; both sides set
+// state.RRCNegotiated = offered && echoed (negotiation.DecideConnectionID -> Common.CommitNegotiatedExtensions).
+// "CIDs without RRC" therefore needs a message hook: WithClientHelloMessageHook removing extension 61 ("noC")
+// or, DTLS 1.2 only, WithServerHelloMessageHook ("noS"; the DTLS 1.3 flights never run the ServerHello hook).
 //
 // Oracle = reference model (sim_test.go: deliver / checkAddr / onVEmit / checkWrapping), clauses
 //   (a) a protected record reaches the application iff it is authentic, carries V's own CID exactly when V
@@ -231,6 +239,70 @@ func runCase(t *testing.T, p *world.PKI, c config, seq []string, seed uint64) ru
 	return o
 }
 
+// runGroup executes every enabled one-event extension of prefix (each on a fresh association) and merges
+// the outcomes: the case fails with the first violating extension (the text names further ones).
+func runGroup(t *testing.T, p *world.PKI, c config, prefix []string, seed uint64) run.Outcome {
+	var g run.Outcome
+	g.Counters = map[string]int{}
+	maxMig, maxChal, more := 0, 0, 0
+	var moreKeys []string
+	all := true
+	for _, ev := range alphabet(c) {
+		if !enabled(prefix, ev) {
+			continue
+		}
+		seq := append(append([]string(nil), prefix...), ev)
+		o := runCase(t, p, c, seq, seed)
+		for k, v := range o.Counters {
+			g.Counters[k] += v
+		}
+		if o.Skip {
+			g.Counters["skipped_executions"]++
+
+			continue
+		}
+		all = false
+		g.Evals++
+		if o.NonTrivial {
+			g.Distinct++
+			g.NonTrivial = true
+		}
+		g.Counters["class:"+o.Class]++
+		g.States = append(g.States, o.States...)
+		g.Transitions = append(g.Transitions, o.Transitions...)
+		var mig, chal, rej int
+		if _, err := fmt.Sscanf(o.Class[strings.IndexByte(o.Class, ' ')+1:], "mig%d chal%d rej%d", &mig, &chal, &rej); err == nil {
+			maxMig, maxChal = max(maxMig, mig), max(maxChal, chal)
+		}
+		if o.Violation != "" {
+			if g.Violation == "" {
+				g.Violation, g.Key = "extension "+ev+": "+o.Violation, o.Key
+			} else {
+				more++
+				if len(moreKeys) < 8 {
+					moreKeys = append(moreKeys, o.Key)
+				}
+			}
+		}
+		if g.Sample == nil {
+			g.Sample = o.Sample
+		}
+	}
+	g.Class = fmt.Sprintf("%s group mig<=%d chal<=%d", c.kind(), maxMig, maxChal)
+	if g.Violation != "" {
+		g.Class = "VIOLATION"
+		if more > 0 {
+			g.Violation = fmt.Sprintf("(+%d further violating extensions, keys %v) ", more, moreKeys) + g.Violation
+		}
+	}
+	g.Skip = all
+
+	return g
+}
+
+// A case is (configuration, event sequence). Sequences shorter than the configuration's depth bound D are
+// cases of their own; the sequences of length D are run in groups "prefix,*" (all enabled extensions of a
+// prefix of length D-1), which keeps the case list small without changing the set of executions.
 func TestC15(t *testing.T) {
 	env := run.GetEnv()
 	p := world.GetPKI(t)
@@ -238,13 +310,30 @@ func TestC15(t *testing.T) {
 	nseq := 0
 	cfgs := configs(env.Thorough())
 	for _, cd := range cfgs {
-		c := cd.c
-		for _, seq := range sequences(c, cd.depth) {
+		c, depth := cd.c, cd.depth
+		for _, seq := range sequences(c, depth-1) {
 			seq := seq
 			nseq++
 			cases = append(cases, run.Case{
 				ID:  "M/" + c.name() + "/" + strings.Join(seq, ","),
 				Run: func(t *testing.T) run.Outcome { return runCase(t, p, c, seq, env.Seed+15) },
+			})
+		}
+		for _, seq := range append([][]string{nil}, sequences(c, depth-1)...) {
+			if len(seq) != depth-1 {
+				continue
+			}
+			seq := seq
+			n := 0
+			for _, ev := range alphabet(c) {
+				if enabled(seq, ev) {
+					n++
+				}
+			}
+			nseq += n
+			cases = append(cases, run.Case{
+				ID:  "M/" + c.name() + "/" + strings.Join(append(append([]string(nil), seq...), "*"), ","),
+				Run: func(t *testing.T) run.Outcome { return runGroup(t, p, c, seq, env.Seed+15) },
 			})
 		}
 	}
